@@ -25,6 +25,8 @@ type Solver struct {
 	Time     time.Duration
 	depth    int
 	Log      io.Writer // optional transcript
+	Slowest  time.Duration
+	SlowHook func(time.Duration)
 }
 
 // NewSolver starts a solver. kind is "z3", "z3-new" or "cvc5".
@@ -124,8 +126,15 @@ func (s *Solver) CheckSat() string {
 		res = l
 		break
 	}
-	s.Time += time.Since(t0)
+	d := time.Since(t0)
+	s.Time += d
 	s.Queries++
+	if d > s.Slowest {
+		s.Slowest = d
+	}
+	if s.SlowHook != nil && d > 2*time.Second {
+		s.SlowHook(d)
+	}
 	if sawErr {
 		res = "unknown"
 	}
